@@ -410,7 +410,7 @@ pub fn run(args: &Args) -> i32 {
             }
             let cn = 1_000_000 + c;
             let mut rng = Rng::new(args.case_seed(cn));
-            exhaustive_case(&mut rng, &mut pools, &mut rep, cn, limit);
+            guard_case(&mut rep, cn, |rep| exhaustive_case(&mut rng, &mut pools, rep, cn, limit));
         }
         rep.finish();
         return 0;
@@ -425,11 +425,14 @@ pub fn run(args: &Args) -> i32 {
             break;
         }
         let mut rng = Rng::new(args.case_seed(c));
-        if c >= 1_000_000 {
-            exhaustive_case(&mut rng, &mut pools, &mut rep, c, if args.thorough { 400_000 } else { 2_000 });
-        } else {
-            case(&mut rng, &mut pools, &mut rep, c, dump);
-        }
+        let thorough = args.thorough;
+        guard_case(&mut rep, c, |rep| {
+            if c >= 1_000_000 {
+                exhaustive_case(&mut rng, &mut pools, rep, c, if thorough { 400_000 } else { 2_000 });
+            } else {
+                case(&mut rng, &mut pools, rep, c, dump);
+            }
+        });
     }
     rep.finish();
     0
